@@ -4,7 +4,7 @@ d="$(cd "$1" && pwd)"; shift
 git -C /repo diff --quiet || { echo "/repo is dirty"; exit 2; }
 git -C /repo apply "$d/patch.diff" || { echo "patch does not apply"; exit 2; }
 for p in "$@"; do
-  out=$(cd /verif && ./check "$p" --tier quick 2>&1); rc=$?
+  out=$(cd "$(dirname "$0")/.." && ./check "$p" --tier quick 2>&1); rc=$?
   echo "== $d $p rc=$rc"; echo "$out" | grep -E "^VIOLATION|^KNOWN|CHECKER" | cut -c1-220 | head -5; echo "$out" | tail -1 | cut -c1-200
 done
 git -C /repo checkout -- . 
